@@ -48,6 +48,7 @@ class KShim:
         self.vanish_hook = None  # callable(path bytes) invoked before add_watch when planned
         self.pre_add_hook = None
         self.stale_add_after_close = 0
+        self.failed_adds = []
 
     # ---- descriptor table
     def _new(self, real, kind):
@@ -114,6 +115,7 @@ class KShim:
         err = self.faults.get("add_fail", {}).get(str(k))
         if err:
             self.sim.fault_fired(f"inotify_add_watch:{errno.errorcode.get(err, err)}")
+            self.failed_adds.append(path)
             ctypes.set_errno(err)
             self.sim.rec("k:add", self._rel(path), -1, err)
             return -1
